@@ -69,6 +69,32 @@ class _Linalg:
         return self._p._solve(a, b)
 
 
+NARROW_DTYPES = []        # (file:line, dtype) of allocations / conversions to a floating type narrower than float64 seen while the
+                          # code under contract ran in a symbolic world: the proofs treat every float as a real number, which
+                          # the float64 cross-checks tie to the machine; a float32 / float16 intermediate is outside that link
+
+
+def note_narrow_dtype(dtype):
+    if dtype is None or dtype is object:
+        return
+    try:
+        dt = _np.dtype(dtype)
+    except TypeError:
+        return
+    if dt.kind in "fc" and dt.itemsize < (8 if dt.kind == "f" else 16):
+        import sys
+        fr = sys._getframe(2)
+        where = "?"
+        while fr is not None:
+            fn_ = fr.f_code.co_filename
+            if "/pyins/" in fn_ or fn_.startswith("<cut:"):
+                where = "%s:%d" % (fn_.split("/pyins/")[-1], fr.f_lineno)
+                break
+            fr = fr.f_back
+        if (where, str(dt)) not in NARROW_DTYPES:
+            NARROW_DTYPES.append((where, str(dt)))
+
+
 class NpProxy:
     def __init__(self, cls=RSym, on_inv=None):
         self._cls = cls
@@ -91,12 +117,15 @@ class NpProxy:
         return tuple(int(s) for s in shape)
 
     def zeros(self, shape, dtype=None, **kw):
+        note_narrow_dtype(dtype)
         return fill(_np.empty(self._shape(shape), dtype=object), self._mk(0.0))
 
     def ones(self, shape, dtype=None, **kw):
+        note_narrow_dtype(dtype)
         return fill(_np.empty(self._shape(shape), dtype=object), self._mk(1.0))
 
     def empty(self, shape, dtype=None, **kw):
+        note_narrow_dtype(dtype)
         return fill(_np.empty(self._shape(shape), dtype=object), POISON)
 
     def eye(self, n, m=None, **kw):
@@ -110,22 +139,24 @@ class NpProxy:
         return _np.shape(a) if shp is None else shp
 
     def zeros_like(self, a, dtype=None, **kw):
-        return self.zeros(self._like_shape(a, kw))
+        return self.zeros(self._like_shape(a, kw), dtype=dtype)
 
     def empty_like(self, a, dtype=None, **kw):
         if dtype is object:
             return _np.empty(self._like_shape(a, kw), dtype=object)
-        return self.empty(self._like_shape(a, kw))
+        return self.empty(self._like_shape(a, kw), dtype=dtype)
 
     def ones_like(self, a, dtype=None, **kw):
-        return self.ones(self._like_shape(a, kw))
+        return self.ones(self._like_shape(a, kw), dtype=dtype)
 
     def asarray(self, a, dtype=None, **kw):
+        note_narrow_dtype(dtype)
         if dtype in (float, _np.float64) and _has_sym(a):
             return _np.asarray(a, dtype=object)
         return _np.asarray(a, dtype=dtype, **kw)
 
     def array(self, a, dtype=None, **kw):
+        note_narrow_dtype(dtype)
         if dtype in (float, _np.float64) and _has_sym(a):
             return _np.array(a, dtype=object)
         return _np.array(a, dtype=dtype, **kw)
